@@ -518,9 +518,10 @@ impl Node {
         let reg_addr = register.address();
         debug!("Validating and storing register {reg_addr:?}");
 
-        // check if the Register is present locally
+        // check if the Register is present locally; ask for the record itself, which also sees a version
+        // whose disk write has not been acknowledged yet (the key index only lists acknowledged records)
         let key = NetworkAddress::from_register_address(*reg_addr).to_record_key();
-        let present_locally = self.network().is_record_key_present_locally(&key).await?;
+        let present_locally = self.network().get_local_record(&key).await?.is_some();
         let pretty_key = PrettyPrintRecordKey::from(&key);
 
         // check register and merge if needed
